@@ -78,6 +78,25 @@ pub fn world() -> World {
     World { specs, relations, privacy_unit, synthetic }
 }
 
+/// a second schema: one protected table whose privacy unit carries a weight column (rows of a unit
+/// with different weights)
+pub fn world_weighted() -> World {
+    let c = |name, ty| ColSpec { name, ty, unique: false };
+    let mut specs = table_specs();
+    specs.push(TableSpec { name: "visits", path: "visits_tab", protected: true, size: 40, cols: vec![
+        c("user_id", ColTy::Int(0, 50)), c("place", ColTy::Float(0.0, 1000.0)), c("spent", ColTy::Float(0.0, 100.0)), c("w", ColTy::Float(0.5, 3.0))] });
+    let relations: Hierarchy<Arc<Relation>> = specs.iter().flat_map(|t| {
+        let schema: Schema = t.cols.iter().map(|c| {
+            if c.unique { (c.name, col_type(&c.ty), Some(Constraint::Unique)) } else { (c.name, col_type(&c.ty), None) }
+        }).collect();
+        let rel: Arc<Relation> = Arc::new(Relation::table().name(t.name).path([t.path]).schema(schema).size(t.size).build());
+        vec![(vec![t.name.to_string()], rel.clone()), (vec![t.path.to_string()], rel)]
+    }).collect();
+    let privacy_unit = PrivacyUnit::from(vec![("visits", vec![], "user_id", "w")]);
+    let synthetic = SyntheticData::new(Hierarchy::from([(vec!["visits_tab"], Identifier::from("sd_visits"))]));
+    World { specs, relations, privacy_unit, synthetic }
+}
+
 // ---------- query generation ----------
 
 #[derive(Clone, Debug)]
